@@ -1585,6 +1585,72 @@ theorem searchN_optimal (pv : M3 K) (N : V3 K) (mi : Int)
 example : (searchM exPv (⟨0, 0, 1⟩ : V3 ℚ) ⟨0, 1, 0⟩ 1).map (fun c => (c.v, cosKey c)) = some (⟨0, 1, 0⟩, 1) := by
   decide +kernel
 
+theorem bestStep_first (l : List (Cand K)) (hm : ∀ c ∈ l, 0 < c.m2) :
+    ∀ (init : Option (Cand K)), (∀ b, init = some b → 0 < b.m2) → ∀ c, l.foldl bestStep init = some c →
+      (match init with
+       | none => ∃ l1 l2, l = l1 ++ c :: l2 ∧ ∀ x ∈ l1, cosKey x < cosKey c
+       | some b => c = b ∨ ∃ l1 l2, l = l1 ++ c :: l2 ∧ cosKey b < cosKey c ∧ ∀ x ∈ l1, cosKey x < cosKey c) := by
+  induction l with
+  | nil =>
+    intro init _ c h
+    simp only [List.foldl_nil] at h
+    subst h
+    exact Or.inl rfl
+  | cons x r ih =>
+    intro init hinit c h
+    simp only [List.foldl_cons] at h
+    have hx : 0 < x.m2 := hm x List.mem_cons_self
+    have hr : ∀ c ∈ r, 0 < c.m2 := fun c hc => hm c (List.mem_cons_of_mem _ hc)
+    cases init with
+    | none =>
+      have e : bestStep none x = some x := rfl
+      rw [e] at h
+      have := ih hr (some x) (by intro b hb; cases hb; exact hx) c h
+      simp only at this ⊢
+      rcases this with rfl | ⟨l1, l2, rfl, hlt, hall⟩
+      · exact ⟨[], r, rfl, by intro y hy; cases hy⟩
+      · refine ⟨x :: l1, l2, rfl, ?_⟩
+        intro y hy
+        rcases List.mem_cons.mp hy with rfl | hy
+        · exact hlt
+        · exact hall y hy
+    | some b =>
+      have hb : 0 < b.m2 := hinit b rfl
+      simp only
+      by_cases hlt : cosLt b x = true
+      · have e : bestStep (some b) x = some x := by simp [bestStep, hlt]
+        rw [e] at h
+        have hbx := (cosLt_iff b x hb hx).mp hlt
+        have := ih hr (some x) (by intro b' hb'; cases hb'; exact hx) c h
+        simp only at this
+        rcases this with rfl | ⟨l1, l2, rfl, hxc, hall⟩
+        · exact Or.inr ⟨[], r, rfl, hbx, by intro y hy; cases hy⟩
+        · refine Or.inr ⟨x :: l1, l2, rfl, hbx.trans hxc, ?_⟩
+          intro y hy
+          rcases List.mem_cons.mp hy with rfl | hy
+          · exact hxc
+          · exact hall y hy
+      · have e : bestStep (some b) x = some b := by simp [bestStep, hlt]
+        rw [e] at h
+        have hbx : ¬ cosKey b < cosKey x := fun hh => hlt ((cosLt_iff b x hb hx).mpr hh)
+        have := ih hr (some b) (by intro b' hb'; cases hb'; exact hb) c h
+        simp only at this
+        rcases this with rfl | ⟨l1, l2, rfl, hbc, hall⟩
+        · exact Or.inl rfl
+        · refine Or.inr ⟨x :: l1, l2, rfl, hbc, ?_⟩
+          intro y hy
+          rcases List.mem_cons.mp hy with rfl | hy
+          · exact lt_of_le_of_lt (not_lt.mp hbx) hbc
+          · exact hall y hy
+
+/-- **bestOf_first**: of several candidates of equally small angle the FIRST in the enumeration order is taken
+    (`arr[np.isclose(angle, angle.min())][0]` with the tolerance read as exact): every candidate before the selected one
+    has a strictly smaller cosine. -/
+theorem bestOf_first (l : List (Cand K)) (hm : ∀ c ∈ l, 0 < c.m2) (c : Cand K) (h : bestOf l = some c) :
+    ∃ l1 l2, l = l1 ++ c :: l2 ∧ ∀ x ∈ l1, cosKey x < cosKey c :=
+  bestStep_first l hm none (by intro b hb; cases hb) c h
+
+
 /-! ## the ceiling and the exact multiplier -/
 
 /-- the specification of the ceiling: the least integer not below `x`. -/
@@ -1679,5 +1745,63 @@ example : (match arrayCall Rat.floor C14.roundHalfEven (ceilOfFloor Rat.floor) (
     | (c, .ok r) => (c, r.oldId.length, r.expected, r.disl.pbc)
     | (c, .error _) => (c, 0, -1, ⟨false, false, false⟩))
     = (⟨0, 0, 1 / 2⟩, 8, 0, ⟨true, true, false⟩) := by decide +kernel
+
+
+/-! ## refusals, exactly -/
+
+/-- **callHead_accepts_iff** (refusals, exactly): the argument handling of a generator call is accepted if and only if
+    the multipliers are acceptable (`callSizes`), the shift arguments — when any is given — resolve, and, for `monopole`,
+    the shape is one of the two known ones. -/
+theorem callHead_accepts_iff (ceil : K → Int) (mono : Bool) (line : Nat) (vects : M3 K) (lens : V3 K) (ucellA : K)
+    (shifts : List (V3 K)) (cur : V3 K) (a : CallArgs K) :
+    (∃ c' hd, callHead ceil mono line vects lens ucellA shifts cur a = (c', .ok hd)) ↔
+      (∃ sz, callSizes ceil line lens a.mults a.mins = some sz) ∧
+      (a.sh.given = true → ∃ s, setShift vects shifts a.sh = .ok s) ∧
+      (mono = true → ∃ shp, Shape.ofString? a.shape = some shp) := by
+  constructor
+  · rintro ⟨c', hd, h⟩
+    obtain ⟨h1, _, h3, _, _, h6⟩ := callHead_ok_spec ceil mono line vects lens ucellA shifts cur c' a hd h
+    refine ⟨⟨_, h1⟩, ?_, fun hm => ⟨_, h6 hm⟩⟩
+    intro hg
+    rw [if_pos hg] at h3
+    exact ⟨_, h3⟩
+  · rintro ⟨⟨sz, hs⟩, hsh, hshape⟩
+    unfold callHead
+    rw [hs]
+    simp only [ShiftCall.step]
+    cases hg : a.sh.given
+    · cases mono
+      · simp
+      · obtain ⟨shp, hshp⟩ := hshape rfl
+        simp [hshp]
+    · obtain ⟨s, hs'⟩ := hsh hg
+      simp only [if_true, hs']
+      cases mono
+      · simp
+      · obtain ⟨shp, hshp⟩ := hshape rfl
+        simp [hshp]
+
+/-- **monopole_refuses_iff**: once the arguments are accepted, building the systems is refused exactly when a cylinder
+    boundary of positive width leaves no positive radius (the assertion of `Cylinder`). -/
+theorem monopole_refuses_iff (fl : K → Int) (pad : K) (sqrt : K → K) (u : V3 K → V3 K) (o : Orient) (rcell : Sys K)
+    (sz : Sizes) (shift center : V3 K) (shape : Shape) (width : K) (nsym : Nat) :
+    monopole fl pad sqrt u o rcell sz shift center shape width nsym = none ↔
+      (0 < width ∧ shape = .cylinder ∧
+        ¬ 0 < cylRadius sqrt o.motion o.cut o.line (baseSystem fl pad rcell sz shift).box width) := by
+  unfold monopole monopoleBoundary
+  simp only [Option.map_eq_none_iff, gt_iff_lt]
+  by_cases hw : 0 < width
+  · simp only [hw, if_true, true_and]
+    cases shape
+    · simp
+    · by_cases hr : 0 < cylRadius sqrt o.motion o.cut o.line (baseSystem fl pad rcell sz shift).box width
+      · simp [hr]
+      · simp [hr]
+  · simp [hw]
+
+
+example : monopole Rat.floor (1 / 1000) (fun x => x) exU exO exRcell exSz ⟨0, 0, 1 / 2⟩ ⟨0, 0, 0⟩ .cylinder 40 1 = none ∧
+    (monopole Rat.floor (1 / 1000) (fun x => x) exU exO exRcell exSz ⟨0, 0, 1 / 2⟩ ⟨0, 0, 0⟩ .box 40 1).isSome = true := by
+  decide +kernel
 
 end Atomman.C13
